@@ -36,6 +36,14 @@ func main() {
 		cmdCopyBin(args)
 	case "multi":
 		cmdMulti(args)
+	case "junk":
+		cmdSimple(args, func(b run.M, rng *rand.Rand) []run.M {
+			evs, err := run.PlayJunk(b, rng)
+			if err != nil {
+				die("junk: %v", err)
+			}
+			return evs
+		})
 	case "segplay":
 		cmdSegPlay(args)
 	case "reader":
